@@ -82,3 +82,22 @@ Example C03_example_numbers :
     [mkPR PLimitCount Nil (param_ref_node 2 10) ""; mkPR PLimitOffset Nil (param_ref_node 1 20) "";
      mkPR PLimitCount Nil (param_ref_node 2 30) ""])) = [1; 2]%Z.
 Proof. vm_compute. reflexivity. Qed.
+
+(** ** whole packages.  The queries of an accepted run (Model/CompileFiles.v compile_queries, any
+    number of query files) are exactly the compilations of the statements of its files, so the
+    statement-level theorem holds for every query of every accepted package. *)
+From Verif Require Import Model.CompileFiles Proofs.RunOrigin.
+Theorem C03_run_partial : forall e files qs name q,
+  compile_queries e false files = Ok qs -> In (name, q) qs ->
+  exists src stmts raw,
+    In (name, src, stmts) files /\ In raw stmts /\ parse_query e raw src false = Ok (Some q) /\
+    (c03_class e raw = 0%N -> refs_complete e raw = true ->
+     let nums := map (int_of "Number")
+                     (search (is_kind "ParamRef") (kid "Stmt" (fst (fst (named_parameters (env_engine e) raw))))) in
+     first_gap (dedup_z nums) 1 (List.length (dedup_z nums)) = None ->
+     map p_num (q_params q) = zseq 1 (List.length (dedup_z nums))).
+Proof.
+  intros e files qs name q H Hin. destruct (run_query_origin e false files qs name q H Hin) as [src [stmts [raw [A [B C]]]]].
+  exists src, stmts, raw. repeat split; try assumption. intros Hc Hr. exact (C03_compiled_partial e raw src q C Hc Hr).
+Qed.
+Print Assumptions C03_run_partial.
